@@ -24,7 +24,8 @@ const (
 
 type poolEntry struct {
 	Kind     int
-	Parsable bool   // the certificate / TBSCertificate of the leaf is well-formed
+	Parsable bool   // the certificate / TBSCertificate of the leaf parses (possibly with non-fatal errors)
+	NonFatal bool   // ... but only with a non-fatal error
 	Serial   uint64 // serial number (valid when Parsable)
 	Entry    rfc6962.Entry
 	Extra    []byte // extra_data (always well-formed)
@@ -53,6 +54,19 @@ func buildPool() {
 		b := world.Build(s)
 		thePool = append(thePool, poolEntry{
 			Kind: map[bool]int{false: kindCert, true: kindPrecert}[s.Precert], Parsable: true,
+			Serial: uint64(s.ID)<<8 | 1, Entry: b.Entry(), Extra: b.ExtraData(), Cert: b.Leaf.DER,
+		})
+	}
+	// certificates that the lenient parser accepts with a NON-FATAL error (SAN iPAddress of 5 octets): the
+	// scanner must still consult the matcher and report them
+	for i := 36; i < 42; i++ {
+		s := world.ChainSpec{
+			ID: uint32(i + 1), Root: i % 4, Inters: inters[(i/2)%len(inters)], LeafKind: kinds[i%len(kinds)],
+			Precert: i%2 == 1, PreIssuer: i%4 == 3, LeafAKI: i%3 != 0, PoisonPos: i % 7, ExtRot: i % 5, SigAlg: i % 3, Quirky: true,
+		}
+		b := world.Build(s)
+		thePool = append(thePool, poolEntry{
+			Kind: map[bool]int{false: kindCert, true: kindPrecert}[s.Precert], Parsable: true, NonFatal: true,
 			Serial: uint64(s.ID)<<8 | 1, Entry: b.Entry(), Extra: b.ExtraData(), Cert: b.Leaf.DER,
 		})
 	}
@@ -90,6 +104,7 @@ func buildPool() {
 type truth struct {
 	Kind     int
 	Parsable bool
+	NonFatal bool
 	Serial   uint64
 	TS       uint64
 	Leaf     []byte
@@ -114,7 +129,7 @@ func buildLog(n int64, seed, stride int) []truth {
 		if err != nil {
 			panic(err)
 		}
-		out[i] = truth{Kind: pe.Kind, Parsable: pe.Parsable, Serial: pe.Serial, TS: ts, Leaf: leaf, Extra: pe.Extra, Cert: pe.Cert}
+		out[i] = truth{Kind: pe.Kind, Parsable: pe.Parsable, NonFatal: pe.NonFatal, Serial: pe.Serial, TS: ts, Leaf: leaf, Extra: pe.Extra, Cert: pe.Cert}
 	}
 	return out
 }
